@@ -17,7 +17,7 @@ import numpy as np
 
 from harness import core
 from harness.core import Prop, outcome, rat, unrat
-from harness.c10 import fclose, float_mag, gen_pairs, gen_srr, int_mag_triple, make_srr_cfg, srr_cfg_json, stack_shapes
+from harness.c10 import cfg_op, enc_rec, fclose, float_mag, gen_pairs, gen_srr, int_mag_triple, make_srr_cfg, srr_cfg_json, stack_shapes
 
 NAMES = ["A", "B", "C"]
 FLAT_REL = 1e-12
@@ -123,7 +123,10 @@ class C09(Prop):
             "magnification 1..4 realised by (spotsize, speed, scantime) triples incl. binary-inexact values whose float quotient is the "
             "integer, warm-up 0..5 samples given in seconds (exact, fractional, exact rounding tie), 1..4 offsets with denominators "
             "1..6, first offset zero or not, 1..3 elements, every sample a unique integer token. Non-trivial = accepted and reconstructed; "
-            "rejected stacks still exercise the validity check, layer reads and the round trip; distinct by canonical case hash. "
+            "rejected stacks still exercise the validity check (compared in both directions with Lean's validSpec), layer reads (with and "
+            "without flat=True) and the round trip; distinct by canonical case hash. Every case sends only INPUTS to the driver "
+            "(constructor arguments and the changes made to the object); the real to_array() result is encoded field by field and read "
+            "back by the model's from_array, SRRConfig.from_array of a plain Config array (defaults for the missing fields) included. "
             "Config-only cases (feature cfg-only, ~22 % of the generated cases + enumerations in targeted()): no stack, one SRRConfig "
             "object that is given 1..8 offset lists one after the other (constructor, then the setter), lists of length 1..4 with "
             "denominators 1..30 (common, mixed, multiples of each other), magnification 1..12; after each assignment the public getters "
@@ -136,24 +139,40 @@ class C09(Prop):
             "config replaced or changed through its setters), then every observation again, compared with the model of the NEW stack "
             "and config")
     trusted = [
-        "'integer magnification' means spotsize/(speed*scantime) evaluates to an integer in float64 (DESIGN 6a); the model is given that value",
-        "np.round(seconds/scantime) equals round-half-even of the exact quotient of the float values unless that quotient is within 1e-9 of a "
-        "tie without being one (such cases are counted undetermined)",
-        "np.mean over <= 5 integer-valued float64 layers is within 1e-12 relative of the exact mean",
-        "NumPy slicing, np.repeat, .T, np.zeros and slice assignment behave as documented (modelled step by step in PewModel/Srr.lean)",
+        "'integer magnification' means spotsize/(speed*scantime) evaluates to an integer in float64 (DESIGN 6a); the driver computes "
+        "that float64 value itself from the three inputs (PewModel/Srr.lean `fl`: round to nearest, ties to even, normal range) and the "
+        "harness compares it bit for bit with the `magnification` getter on every case",
+        "IEEE-754: float64 multiplication and division are correctly rounded (modelled by `fl`, theorem fl_relerr); the warm-up in samples "
+        "is np.round (half-even) of the float64 quotient seconds/scantime, modelled exactly; the SPECIFICATION of the warm-up is half-even "
+        "of the exact quotient - when the two can differ (quotient not a float64 and within |x|/2^53 of a tie, hypothesis of "
+        "warmup_setter_determined, decided by the driver) the case is counted undetermined",
+        "np.mean over <= 5 integer-valued float64 layers is within 1e-12 relative of the exact mean (flat_is_mean is about the exact mean)",
+        "NumPy slicing, np.repeat, .T, np.zeros and slice assignment behave as documented (modelled step by step in PewModel/Srr.lean); "
+        "assignment broadcasting of a length-1 axis is not modelled: for accepted configurations on crossed stacks it cannot occur "
+        "(valid_implies_shapes_agree; re-checked on every accepted case: the model answering 'raises' where pewlib reconstructs is a reported difference)",
         "the offsets a configuration holds are observed through the public `subpixel_offsets` getter (rows [stored, size]); the "
         "statement of offsets_setter_exact is evaluated on those rows by the driver (`setterExact`), for accepted configurations",
+        "structured arrays: NumPy >= 2 semantics of float(array) (TypeError unless 0-d), array[name] (ValueError for a missing field) and "
+        "keyword construction; only 0-d / 1-d arrays of float64 fields and (k, 2) integer tables are encoded for the driver",
     ]
     assumptions = [
-        "layer i of a stack has the shape of layer (i mod 2) (crossed layers, DESIGN 6a)",
-        "a configuration the implementation rejects although the model accepts it is not a violation (the property only speaks of accepted "
-        "configurations); it is counted under the feature 'impl-rejects-model-accepts'",
+        "layer i of a stack has the shape of layer (i mod 2) (crossed layers, DESIGN 6a); the driver re-checks it (`crossed`)",
+        "acceptance is compared in BOTH directions: check_config_valid must accept exactly the configurations for which every source index "
+        "of the geometric model exists (Lean `validSpec`, theorems valid_iff_spec and valid_iff_evaluable); a validity check that rejects "
+        "a configuration the specification accepts is reported (feature 'impl-rejects-spec-accepts'). Near-integer magnifications (float "
+        "quotient within 1e-9 of an integer without being one) stay outside: run, reported as features, never compared",
+        "the specification (voxel formula, flat mean, acceptance) and the model are evaluated by the driver for the configuration computed "
+        "by Lean from the INPUTS (constructor arguments, then the setter calls / set_equal_subpixel_offsets / replacement made on the "
+        "object, `ops`), never from what the implementation reports; the implementation's getters (warmup, magnification, "
+        "subpixel_offsets, subpixels_per_pixel) and its array form are compared with that configuration too (impl-vs-model)",
         "history cases change the stack only through the public list `laser.data` (item assignment of a same-shape, same-dtype array, "
-        "or element assignment into a layer) and the configuration only through `laser.config` (assignment of a new SRRConfig, or its "
-        "`subpixel_offsets` / `warmup` setters); every reconstruction is required to follow the stack and config the object holds when "
-        "it is called ('for every stack ... and every accepted configuration')",
+        "or element assignment into a layer) and the configuration only through `laser.config` (assignment of a new SRRConfig, its "
+        "`subpixel_offsets` / `warmup` setters, `set_equal_subpixel_offsets`); every reconstruction is required to follow the stack and "
+        "config the object holds when it is called ('for every stack ... and every accepted configuration')",
         "config-only cases outside the hypotheses of offsets_setter_exact (empty list, denominator < 1, negative numerator) or whose "
         "lcm * numerator does not fit 2^60 are counted as hypothesis-excluded, never compared",
+        "a change of the array LAYOUT (field names, order, shape) that keeps from_array(to_array(c)) = c is reported as an "
+        "implementation-vs-model difference (the model's arrays are the ones NumPy builds now), not as a violation of the specification",
     ]
 
     def generate(self, rng, tier):
@@ -248,8 +267,16 @@ class C09(Prop):
                     if cand != case["pairs"] and (l0 * M * p + ov) * (l1 * M * p + ov) * n <= 3500:
                         pairs2 = cand
                         break
-                steps.append({"op": "config", "via": rng.choice(["object", "setter"]), "pairs": pairs2,
-                              "warmup": w2 * case["scantime"]})
+                via = rng.choice(["object", "setter", "setter", "equal"])
+                if via == "equal":  # set_equal_subpixel_offsets(width): offsets 0/width .. (width-1)/width
+                    for width in rng.sample([1, 2, 3, 4, 5], 5):
+                        p = math.lcm(width, M) // M
+                        if (l0 * M * p + width - 1) * (l1 * M * p + width - 1) * n <= 3500:
+                            pairs2 = [[k, width] for k in range(width)]
+                            break
+                    else:
+                        via = "setter"
+                steps.append({"op": "config", "via": via, "pairs": pairs2, "warmup": w2 * case["scantime"]})
         case["steps"] = steps
         case["order"] = rng.choice(["std", "std", "flat-first", "krisskross-first"])
         return case
@@ -292,6 +319,7 @@ class C09(Prop):
         yield {**hbase, "steps": [{"op": "edit", "layer": 3, "cells": "all"}], "order": "krisskross-first"}
         yield {**hbase, "steps": [{"op": "config", "via": "setter", "pairs": [[0, 2], [1, 2]], "warmup": 0.0}]}
         yield {**hbase, "steps": [{"op": "config", "via": "object", "pairs": [[1, 2]], "warmup": 0.25}]}
+        yield {**hbase, "steps": [{"op": "config", "via": "equal", "pairs": [[0, 3], [1, 3], [2, 3]], "warmup": 0.5}]}
         yield {**hbase, "steps": [{"op": "config", "via": "setter", "pairs": [[2, 3]], "warmup": 0.25}, {"op": "replace", "layer": 0}]}
         yield {**base, "kind": "history", "shapes": [[1, 1], [1, 1]], "steps": [{"op": "replace", "layer": 0}], "order": "std"}
         yield {**base, "kind": "history", "shapes": [[1, 2], [2, 1]], "n": 3, "steps": [{"op": "edit", "layer": 2, "cells": [[0, 0]]}],
@@ -356,8 +384,16 @@ class C09(Prop):
             except Exception as ex:
                 status = "accepted-but-raises-" + type(ex).__name__
             side = "below" if mag < case["mag"] else "above"
-            obs = {"near_integer_magnification": status}
-            return outcome(obs, obs, obs, undetermined=True, hyp=False, features=[f"near-integer-mag-{side}:{status}"])
+            # the model's float64 magnification must be the implementation's, and it must not be an integer
+            rep = ctx.driver.call("c09.config", cfg=srr_cfg_json(case), sets=[])
+            mj = rep["start"]
+            same = mj["magnification"] == rat(float(laser.config.magnification))
+            obs = {"near_integer_magnification": status, "magnification": rat(float(laser.config.magnification))}
+            mobs = {"near_integer_magnification": status, "magnification": mj["magnification"]}
+            if mj["integer_mag"]:
+                raise core.InternalError("generator: a near-integer magnification is an integer in the model's float arithmetic")
+            return outcome(obs, mobs, obs, model_ok=same, undetermined=True, hyp=False,
+                           features=[f"near-integer-mag-{side}:{status}"])
         if mag != float(case["mag"]):
             raise core.InternalError("generator: magnification is not the intended float integer")
         cfg = make_srr_cfg(case)
@@ -369,33 +405,55 @@ class C09(Prop):
                        undetermined=st["undet"], features=st["feats"], note=st["note"])
 
     def eval_state(self, case, ctx, laser, cfg, enc, order="std"):
-        """every observation of the property on `laser` in its CURRENT state, against the model/specification of the stack
-        `enc` and the configuration described by `case` (spotsize, speed, scantime, warmup, pairs). `cfg` is the configuration
-        object whose getters / round trip are observed."""
+        """every observation of the property on `laser` in its CURRENT state, against the model/specification that the driver
+        computes from the INPUTS: the stack `enc` and the constructor arguments + later changes described by `case`
+        (spotsize, speed, scantime, warmup, pairs, ops). `cfg` is the configuration object whose getters / round trip are observed."""
+        from pewlib.config import Config
         from pewlib.srr.config import SRRConfig
 
         names = NAMES[:case["nel"]]
         e = case["element"]
-        mag = float_mag(case)
-        # the configuration as the implementation states it (public getters); the geometric model is evaluated for it
-        observed = None
+
+        def obs_cfg(c):
+            o = {"params": [rat(float(c.spotsize)), rat(float(c.speed)), rat(float(c.scantime))], "warmup": rat(float(c.warmup)),
+                 "magnification": rat(float(c.magnification))}
+            so = c.subpixel_offsets
+            o["subpixel_offsets"] = int_rows(so) if int_rows(so) is not None else {"not-integer-rows": np.asarray(so).tolist()}
+            spp = c.subpixels_per_pixel
+            o["subpixels_per_pixel"] = int(spp) if float(spp).is_integer() else float(spp)
+            return o
+
+        def cfg_view(j):
+            if "spotsize" not in j:
+                return j
+            return {"params": [j["spotsize"], j["speed"], j["scantime"]], "warmup": j["warmup_seconds"],
+                    "magnification": j["magnification"], "subpixel_offsets": j["subpixel_offsets"], "subpixels_per_pixel": j["spp"]}
+
+        # ---- the configuration's array form, as NumPy built it (read back by the driver's `fromRec`)
+        arrays, arr_note = [], None
         try:
-            wq = Fraction(float(cfg.warmup)) / Fraction(case["scantime"])
-            so = np.asarray(cfg.subpixel_offsets)
-            if abs(wq - round(wq)) <= Fraction(1, 10**9) and so.ndim == 2 and so.shape[0] >= 1 and int(so[:, 0].min()) >= 0 \
-                    and int(cfg.subpixels_per_pixel) >= 0:
-                observed = {"w": int(round(wq)), "offs": [int(v) for v in so[:, 0]], "p": int(cfg.subpixels_per_pixel)}
-        except Exception:
-            observed = None
-        rep = ctx.driver.call("c09.srr", cfg=srr_cfg_json(case), mag=rat(mag), nel=case["nel"], layers=enc, observed=observed)
+            arr = cfg.to_array()
+            arr_enc = enc_rec(arr)
+            raster_enc = enc_rec(Config(spotsize=float(cfg.spotsize), speed=float(cfg.speed), scantime=float(cfg.scantime)).to_array())
+            if arr_enc is not None and raster_enc is not None:
+                arrays = [arr_enc, raster_enc]
+        except Exception as ex:
+            arr, arr_note = None, {"raises": type(ex).__name__, "msg": str(ex)[:200]}
+        rep = ctx.driver.call("c09.srr", cfg=srr_cfg_json(case), nel=case["nel"], layers=enc, arrays=arrays)
+        mj = rep["config"]
+        if not mj["integer_mag"] or mj["mag"] != case["mag"]:
+            raise core.InternalError("generator: the model's float64 magnification is not the intended integer")
+        if not rep["crossed"]:
+            raise core.InternalError("generator: the stack is not crossed")
         # the statement of offsets_setter_exact on the rows the configuration reports (evaluated by the driver)
         setter_exact = None
         try:
             rows = int_rows(cfg.subpixel_offsets)
         except Exception:
             rows = None
-        if rows is not None and pairs_ok(case["pairs"]):
-            srep = ctx.driver.call("c09.config", cfg=srr_cfg_json(case), mag=rat(mag), sets=[{"pairs": case["pairs"], "observed": rows}])
+        pairs_now = case.get("pairs_now", case["pairs"])  # the offset list the object was given last
+        if rows is not None and pairs_ok(pairs_now):
+            srep = ctx.driver.call("c09.config", cfg=srr_cfg_json(case), sets=[{"pairs": pairs_now, "observed": rows, "array": None}])
             setter_exact = srep["sets"][0]["observed_exact"]
 
         # ---- implementation, observed at check_config_valid / get / krisskross and the config's array round trip
@@ -421,40 +479,41 @@ class C09(Prop):
             except Exception as ex:
                 impl["recon"] = {"raises": type(ex).__name__, "msg": str(ex)[:200]}
         impl["offsets_exact"] = setter_exact
-        impl["layers"] = []
+        impl["layers"], impl["layers_flat"] = [], []
         for i in range(case["n"]):
-            try:
-                impl["layers"].append(enc2(laser.get(layer=i), names))
-            except Exception as ex:
-                impl["layers"].append({"raises": type(ex).__name__, "msg": str(ex)[:200]})
+            for key, kw in (("layers", {}), ("layers_flat", {"flat": True})):
+                try:
+                    impl[key].append(enc2(laser.get(layer=i, **kw), names))
+                except Exception as ex:
+                    impl[key].append({"raises": type(ex).__name__, "msg": str(ex)[:200]})
         try:
-            rt = SRRConfig.from_array(cfg.to_array())
-            obs = lambda c: {"params": [rat(float(c.spotsize)), rat(float(c.speed)), rat(float(c.scantime))],
-                             "warmup": float(c.warmup), "subpixel_offsets": np.asarray(c.subpixel_offsets).tolist()}
-            impl["roundtrip"] = obs(rt)
-            impl["original"] = obs(cfg)
+            impl["config"] = obs_cfg(cfg)
         except Exception as ex:
-            impl["roundtrip"] = {"raises": type(ex).__name__, "msg": str(ex)[:200]}
-            impl["original"] = None
+            impl["config"] = {"raises": type(ex).__name__, "msg": str(ex)[:200]}
+        if arr is None:
+            impl["array"] = impl["roundtrip"] = impl["from_raster_array"] = arr_note
+        else:
+            impl["array"] = arr_enc if arr_enc is not None else {"not-encodable": str(arr.dtype)}
+            for key, a in (("roundtrip", arr), ("from_raster_array", Config(spotsize=float(cfg.spotsize), speed=float(cfg.speed),
+                                                                           scantime=float(cfg.scantime)).to_array())):
+                try:
+                    impl[key] = obs_cfg(SRRConfig.from_array(a))
+                except Exception as ex:
+                    impl[key] = {"raises": type(ex).__name__, "msg": str(ex)[:200]}
 
         # ---- specification / model (Lean)
-        def cfg_view(j):
-            return {"params": [j["spotsize"], j["speed"], j["scantime"]], "warmup": j["warmup_seconds"],
-                    "subpixel_offsets": j["subpixel_offsets"]}
-
-        def cfg_ok(o, j):
-            v = cfg_view(j)
-            return (isinstance(o, dict) and "raises" not in o and o["params"] == v["params"]
-                    and fclose(o["warmup"], unrat(v["warmup"])) and o["subpixel_offsets"] == v["subpixel_offsets"])
-
-        spec = {"recon": rep["spec"] if rep["spec_inrange"] else {"unsatisfiable": "a source index of the geometric model is out of range"},
-                "flat": rep["flat_spec"], "layers": rep["layer_spec"], "roundtrip": cfg_view(rep["roundtrip_spec"])}
+        determined = bool(rep["warmup_determined"])
+        spec = {"valid": rep["valid_spec"],
+                "recon": rep["spec"] if rep["spec_inrange"] else {"unsatisfiable": "a source index of the geometric model is out of range"},
+                "flat": rep["flat_spec"], "layers": rep["layer_spec"], "layers_flat": rep["layer_spec"], "roundtrip": "unchanged"}
         model = {"valid": rep["valid"], "recon": rep["model"], "flat": rep["flat_model"], "layers": rep["layer_model"],
-                 "roundtrip": cfg_view(rep["roundtrip_model"])}
+                 "layers_flat": rep["layer_model_flat"], "config": cfg_view(mj), "array": rep["array_model"],
+                 "roundtrip": cfg_view(rep["roundtrip_model"]),
+                 "from_raster_array": cfg_view(rep["from_arrays"][1]) if arrays else None}
 
         def recon_ok(target, flats):
             if not valid:
-                return True  # nothing is claimed about configurations that are not accepted
+                return True  # nothing is claimed about the reconstruction of configurations that are not accepted
             if "data" not in impl.get("recon", {}) or "data" not in target:
                 return False
             if not (core.canon(impl["recon"]) == core.canon(target) and core.canon(impl["krisskross"]) == core.canon(target)):
@@ -468,46 +527,69 @@ class C09(Prop):
                     return False
             return flat_close(impl["flat_element"]["data"], flats[e]["data"])
 
-        layers_spec_ok = core.canon(impl["layers"]) == core.canon(spec["layers"])
-        rt_same = impl["original"] is not None and core.canon(impl["roundtrip"]) == core.canon(impl["original"])
-        spec_ok = recon_ok(spec["recon"], rep["flat_spec"]) and layers_spec_ok and rt_same and not (valid and setter_exact is False)
-        spec["offsets_exact"] = model["offsets_exact"] = None if setter_exact is None else True
-        model_ok = (recon_ok(model["recon"], rep["flat_model"]) and core.canon(impl["layers"]) == core.canon(model["layers"])
-                    and cfg_ok(impl["roundtrip"], rep["roundtrip_model"]) and cfg_ok(impl["original"], rep["roundtrip_spec"])
-                    and not (valid and rep["valid"] is not True))
+        def same(a, b):
+            return core.canon(a) == core.canon(b)
 
-        margin = unrat(rep["warmup_margin"])
-        undet = 0 < margin < Fraction(1, 10**9)
+        def agrees(o, v):
+            """a configuration the implementation holds against the model's (exact floats; errors by class)"""
+            if not isinstance(o, dict) or not isinstance(v, dict):
+                return False
+            if "raises" in o or "raises" in v:
+                return o.get("raises") == v.get("raises")
+            if v.get("unmodelled"):
+                return True
+            return same(o, v)
+
+        layers_spec_ok = same(impl["layers"], spec["layers"]) and same(impl["layers_flat"], spec["layers"])
+        rt_same = isinstance(impl["config"], dict) and "raises" not in impl["config"] and same(impl["roundtrip"], impl["config"])
+        # acceptance is compared in BOTH directions (theorems valid_iff_spec / valid_iff_evaluable): accepted iff the geometric
+        # model can be evaluated.  (When float rounding decides the warm-up in samples the case is undetermined anyway.)
+        spec_ok = (valid == rep["valid_spec"] and recon_ok(spec["recon"], rep["flat_spec"]) and layers_spec_ok and rt_same
+                   and not (valid and setter_exact is False))
+        spec["offsets_exact"] = model["offsets_exact"] = None if setter_exact is None else True
+        model_ok = (valid == (rep["valid"] is True) and recon_ok(model["recon"], rep["flat_model"])
+                    and same(impl["layers"], model["layers"]) and same(impl["layers_flat"], model["layers_flat"])
+                    and agrees(impl["config"], model["config"]) and agrees(impl["roundtrip"], model["roundtrip"]))
+        if arrays:
+            model_ok = model_ok and same(impl["array"], model["array"]) and agrees(impl["from_raster_array"], model["from_raster_array"])
+
+        # float rounding of the warm-up quotient crosses a tie: the specification does not decide the warm-up in samples, so
+        # nothing is demanded of the implementation; the MODEL (exact float64 arithmetic) still has to agree with it
+        undet = (not determined) and model_ok
+        if not determined:
+            spec_ok = True
         feats = set()
         if valid and "data" in impl.get("recon", {}):
             l0, l1 = case["shapes"][0][0], case["shapes"][1][0]
-            w = rep["config"]["warmup_samples"]
-            M = rep["mag"]
+            w = mj["warmup_samples"]
+            M = mj["mag"]
             ex0 = case["shapes"][0][1] - (w + l1 * M)
             ex1 = case["shapes"][1][1] - (w + l0 * M)
             feats |= {f"mag{M}", f"layers{case['n']}", f"elements{case['nel']}",
                       "non-square" if l0 != l1 else "square",
                       "warmup>0" if w > 0 else "warmup=0",
                       "excess>0" if max(ex0, ex1) > 0 else "exact-fit",
-                      "first-offset-zero" if rep["config"]["offs"][0] == 0 else "first-offset-nonzero",
-                      "spp>1" if rep["spp"] > 1 else "spp=1",
-                      f"offsets{len(case['pairs'])}", f"warmup-{case['wmode']}"}
-            if len(rep["config"]["offs"]) + (rep["config"]["offs"][0] != 0) < case["n"]:
+                      "first-offset-zero" if mj["offs"][0] == 0 else "first-offset-nonzero",
+                      "spp>1" if mj["spp"] > 1 else "spp=1",
+                      f"offsets{len(mj['offs'])}", f"warmup-{case['wmode']}"}
+            if len(mj["offs"]) + (mj["offs"][0] != 0) < case["n"]:
                 feats.add("offsets-cycle")
             if min(l0, l1) == 1:
                 feats.add("one-line")
-            if max(rep["config"]["offs"]) >= rep["spp"] and max(rep["config"]["offs"]) > 0:
+            if max(mj["offs"]) >= mj["spp"] and max(mj["offs"]) > 0:
                 feats.add("offset>=pixel")
+            if mj["magnification_exact"] != mj["magnification"]:
+                feats.add("magnification: exact quotient is not the float integer")
+            if arrays:
+                feats.add("array-form: structured dtype compared")
         note = ""
         if not valid:
             note = "rejected"
-            if rep["valid"] is True:
-                feats_rej = {"impl-rejects-model-accepts"}
-            else:
-                feats_rej = {"rejected:" + str(case.get("short"))}
-            feats = feats_rej
-        elif feats and max(d for _, d in case["pairs"]) >= 10:
+            feats = {"rejected:" + str(case.get("short"))} if not rep["valid_spec"] else {"impl-rejects-spec-accepts"}
+        elif feats and max(d for _, d in pairs_now) >= 10:
             feats.add("recon:den>=10")
+        if not determined:
+            feats.add("warm-up decided by float rounding (undetermined)")
         return {"impl": impl, "model": model, "spec": spec, "spec_ok": spec_ok, "model_ok": model_ok, "undet": undet,
                 "feats": feats, "note": note, "valid": valid}
 
@@ -524,6 +606,7 @@ class C09(Prop):
         shift = case["nel"] * total  # fresh tokens: every changed sample gets a value no other sample has
         enc2 = copy.deepcopy(enc)
         case2 = dict(case)
+        case2["ops"] = list(case.get("ops", []))
         hfeats = set()
         for k, stp in enumerate(case.get("steps", [])):
             delta = (k + 1) * shift
@@ -552,14 +635,23 @@ class C09(Prop):
                     hfeats.add("history:edit-in-place")
                 hfeats.add("history:last-layer" if i == n - 1 else ("history:first-layer" if i == 0 else "history:inner-layer"))
             elif op == "config":
-                case2["pairs"] = [list(q) for q in stp["pairs"]]
-                case2["warmup"] = stp["warmup"]
+                pairs2 = [list(q) for q in stp["pairs"]]
                 case2["wmode"] = "exact"
+                # the driver is told what was DONE to the object (a new one, or the two setters); `pairs` only names the
+                # offset list the statement of offsets_setter_exact is evaluated for
                 if stp["via"] == "object":
-                    laser.config = make_srr_cfg(case2)
+                    laser.config = make_srr_cfg({**case2, "pairs": pairs2, "warmup": stp["warmup"]})
+                    case2["ops"] = case2["ops"] + [cfg_op("new", spotsize=case2["spotsize"], speed=case2["speed"],
+                                                          scantime=case2["scantime"], warmup=stp["warmup"], pairs=pairs2)]
+                elif stp["via"] == "equal" and pairs2 == [[k, len(pairs2)] for k in range(len(pairs2))]:
+                    laser.config.set_equal_subpixel_offsets(len(pairs2))
+                    laser.config.warmup = stp["warmup"]
+                    case2["ops"] = case2["ops"] + [cfg_op("equal", width=len(pairs2)), cfg_op("warmup", seconds=stp["warmup"])]
                 else:
-                    laser.config.subpixel_offsets = [tuple(q) for q in case2["pairs"]]
-                    laser.config.warmup = case2["warmup"]
+                    laser.config.subpixel_offsets = [tuple(q) for q in pairs2]
+                    laser.config.warmup = stp["warmup"]
+                    case2["ops"] = case2["ops"] + [cfg_op("offsets", pairs=pairs2), cfg_op("warmup", seconds=stp["warmup"])]
+                case2["pairs_now"] = pairs2
                 hfeats.add("history:config-" + stp["via"])
             else:
                 raise core.InternalError(f"unknown history step {op}")
@@ -593,16 +685,18 @@ class C09(Prop):
             return np.array(ps) if case.get("via") == "array" else [tuple(q) for q in ps]
 
         def obs(c):
-            o = {"params": [rat(float(c.spotsize)), rat(float(c.speed)), rat(float(c.scantime))], "warmup": float(c.warmup)}
+            o = {"params": [rat(float(c.spotsize)), rat(float(c.speed)), rat(float(c.scantime))], "warmup": rat(float(c.warmup)),
+                 "magnification": rat(float(c.magnification))}
             so = c.subpixel_offsets
             o["subpixel_offsets"] = int_rows(so) if int_rows(so) is not None else {"not-integer-rows": np.asarray(so).tolist()}
             spp = c.subpixels_per_pixel
             o["subpixels_per_pixel"] = int(spp) if float(spp).is_integer() else float(spp)
             return o
 
-        impl_sets, observed = [], []
+        impl_sets, entries = [], []
         cfg = None
         for k, ps in enumerate(sets):
+            arr_enc = None
             try:
                 if k == 0:
                     cfg = SRRConfig(spotsize=case["spotsize"], speed=case["speed"], scantime=case["scantime"], warmup=case["warmup"],
@@ -611,7 +705,8 @@ class C09(Prop):
                     cfg.subpixel_offsets = give(ps)  # the setter alone, on the same object
                 o = obs(cfg)
                 arr = cfg.to_array()
-                o["array_offsets"] = int_rows(arr["subpixel_offsets"])
+                arr_enc = enc_rec(arr)
+                o["array"] = arr_enc if arr_enc is not None else {"not-encodable": str(arr.dtype)}
                 o["roundtrip"] = obs(SRRConfig.from_array(arr))
             except Exception as ex:
                 if cfg is None:
@@ -619,37 +714,46 @@ class C09(Prop):
                 o = {"raises": type(ex).__name__, "msg": str(ex)[:200]}
             impl_sets.append(o)
             rows = o.get("subpixel_offsets")
-            observed.append(rows if isinstance(rows, list) else None)
-        cj = {"spotsize": rat(case["spotsize"]), "speed": rat(case["speed"]), "scantime": rat(case["scantime"]), "warmup": rat(case["warmup"])}
-        rep = ctx.driver.call("c09.config", cfg=cj, mag=rat(mag), sets=[{"pairs": ps, "observed": ob} for ps, ob in zip(sets, observed)])
+            entries.append({"pairs": ps, "observed": rows if isinstance(rows, list) else None, "array": arr_enc})
+        cj = srr_cfg_json({**case, "pairs": sets[0]})
+        rep = ctx.driver.call("c09.config", cfg=cj, sets=entries)
+        if not rep["start"]["integer_mag"] or rep["start"]["mag"] != case["mag"]:
+            raise core.InternalError("generator: the model's float64 magnification is not the intended integer")
 
-        def view(j, spp):
+        def view(j):
             return {"params": [j["spotsize"], j["speed"], j["scantime"]], "warmup": j["warmup_seconds"],
-                    "subpixel_offsets": j["subpixel_offsets"], "subpixels_per_pixel": spp}
+                    "magnification": j["magnification"], "subpixel_offsets": j["subpixel_offsets"], "subpixels_per_pixel": j["spp"]}
 
         def agrees(o, v):
-            return (isinstance(o, dict) and "raises" not in o and o["params"] == v["params"] and fclose(o["warmup"], unrat(v["warmup"]))
-                    and o["subpixel_offsets"] == v["subpixel_offsets"] and o["subpixels_per_pixel"] == v["subpixels_per_pixel"])
+            return isinstance(o, dict) and "raises" not in o and all(core.canon(o[k]) == core.canon(v[k]) for k in v)
 
         spec_ok = model_ok = True
         model_sets, spec_sets = [], []
-        feats = {"cfg-only", "cfg-only:via-" + str(case.get("via", "list")), f"cfg-only:mag{rep['mag']}"}
+        feats = {"cfg-only", "cfg-only:via-" + str(case.get("via", "list")), f"cfg-only:mag{rep['start']['mag']}"}
         if case.get("enumerated"):
             feats.add("cfg-only:enumerated")
         if len(sets) > 1:
             feats.add("cfg-only:setter-history")
-        for ps, o, r in zip(sets, impl_sets, rep["sets"]):
+        for ps, o, en, r in zip(sets, impl_sets, entries, rep["sets"]):
             if not r["hyp"]:
                 raise core.InternalError("pairs_ok and the driver disagree on the hypothesis")
-            mv, rv = view(r["config"], r["spp"]), view(r["roundtrip_model"], r["spp_roundtrip"])
-            model_sets.append({"state": mv, "roundtrip": rv})
+            mv = view(r["config"])
+            rv = view(r["roundtrip_model"]) if "spotsize" in r["roundtrip_model"] else r["roundtrip_model"]
+            # `SRRConfig.from_array` of the REAL array, read by the model's `fromRec`
+            fv = None
+            if en["array"] is not None:
+                fa = r["from_arrays"][0]
+                fv = view(fa) if "spotsize" in fa else fa
+            model_sets.append({"state": mv, "array": r["array_model"], "roundtrip": rv, "from_real_array": fv})
             spec_sets.append({"offset_fractions": r["spec_fractions"], "offsets_exact": True, "roundtrip": "unchanged"})
             ok = "raises" not in o
             # specification: stored/size = offset/denominator exactly (offsets_setter_exact, evaluated by the driver on the reported
-            # rows), the array form holds the same rows, and the configuration survives the round trip unchanged
-            s_ok = (ok and r["observed_exact"] is True and o["array_offsets"] == o["subpixel_offsets"]
-                    and core.canon(o["roundtrip"]) == core.canon({k: v for k, v in o.items() if k not in ("array_offsets", "roundtrip")}))
-            m_ok = ok and agrees(o, mv) and agrees(o["roundtrip"], rv)
+            # rows), and the configuration survives the round trip unchanged
+            s_ok = (ok and r["observed_exact"] is True
+                    and core.canon(o["roundtrip"]) == core.canon({k: v for k, v in o.items() if k not in ("array", "roundtrip")}))
+            m_ok = (ok and agrees(o, mv) and isinstance(rv, dict) and "params" in rv and agrees(o["roundtrip"], rv)
+                    and core.canon(o["array"]) == core.canon(r["array_model"])
+                    and isinstance(fv, dict) and "params" in fv and agrees(o["roundtrip"], fv))
             o["offsets_exact"] = r["observed_exact"]
             spec_ok, model_ok = spec_ok and s_ok, model_ok and m_ok
             dens = [d for _, d in ps]
@@ -663,10 +767,11 @@ class C09(Prop):
                 feats.add("cfg-only:offset>=pixel")
             if r["config"]["size"] not in dens:
                 feats.add("cfg-only:lcm-above-every-denominator")
-            if r["spp"] != r["config"]["size"]:
+            if r["config"]["spp"] != r["config"]["size"]:
                 feats.add("cfg-only:spp!=size")
-        margin = unrat(rep["warmup_margin"])
-        undet = 0 < margin < Fraction(1, 10**9)
+        # nothing in the specification of a config-only case depends on the warm-up in samples (offsets exact, round trip
+        # unchanged); the model's float64 warm-up is compared exactly whatever the rounding
+        undet = False
         return outcome({"sets": impl_sets}, {"sets": model_sets}, {"sets": spec_sets}, spec_ok=spec_ok, model_ok=model_ok,
                        undetermined=undet, features=feats)
 
